@@ -740,6 +740,80 @@ theorem sync_converges_any_digests (arr : Arrange) (harr : ArrOK arr) (H : Hashe
     rw [digest_order_independent H vs depth π1 πa a h1 hπa, digest_order_independent H vs depth π2 πb b h2 hπb]
     exact hd
 
+/-! ## the ideal-hash hypothesis and the REAL hash (session 4)
+
+  "Equal digests iff equal states" is proved under `SipIdeal sip` (the one 64-bit byte hash is
+  collision-free).  No 64-bit function is, and for SipHash-1-3 with the fixed zero key a collision
+  inside the property's quantifier can be COMPUTED (distinguished-point search, ≈ 2³² evaluations,
+  two minutes): two values that differ only in `expiry_ms` with the same `KeyDigest.value_hash`.
+  The kernel evaluates the model's transcription of the hasher on both. -/
+
+def collV1 : RV := { RV.withValue [118] ⟨1, 1⟩ with expiry := some 7186234069774404105 }
+def collV2 : RV := { RV.withValue [118] ⟨1, 1⟩ with expiry := some 11093851672895297929 }
+
+set_option maxRecDepth 20000 in
+/-- `KeyDigest::new(k, SET k v PX 7186234069774404105 @(1, r1)).value_hash
+     = KeyDigest::new(k, SET k v PX 11093851672895297929 @(1, r1)).value_hash` -/
+theorem sip13_value_hash_collision :
+    currentHasher.val (currentStream collV1) = 11078082544913061200
+    ∧ currentHasher.val (currentStream collV2) = 11078082544913061200
+    ∧ collV1 ≠ collV2 ∧ currentStream collV1 ≠ currentStream collV2 := by
+  decide
+
+/-- the hypothesis of `digest_iff_state_eq_current` is FALSE for the real hash -/
+theorem sip13_not_ideal : ¬ SipIdeal Sip.sip13 := by
+  intro h
+  have hc := sip13_value_hash_collision
+  have : currentStream collV1 = currentStream collV2 := h.inj _ _ (by
+    have h1 := hc.1; have h2 := hc.2.1
+    unfold currentHasher sipHasher at h1 h2
+    simp only [] at h1 h2
+    rw [h1, h2])
+  exact hc.2.2.2 this
+
+/-- a single-key state: the digest is a function of the key digest -/
+theorem fromState_singleton_congr (H : Hasher) (vs : ValueStream) (depth k : Nat) (v w : RV)
+    (h : keyDigest H vs k v = keyDigest H vs k w) :
+    fromState H true vs depth [k] [(k, v)] = fromState H true vs depth [k] [(k, w)] := by
+  have hb : ∀ b, bucketDigests H vs depth [k] [(k, v)] b = bucketDigests H vs depth [k] [(k, w)] b := by
+    intro b
+    simp [bucketDigests, iter, NMap.get, h]
+  unfold fromState
+  simp only [hb]
+
+/-- **never a false "in sync" — refuted for the real hash by a real pair of states**: the
+    single-key states `{h ↦ collV1}` and `{h ↦ collV2}` differ (in the expiry) and have EQUAL
+    digests at EVERY depth — two replicas holding them report "in sync" for ever, and no bucket is
+    ever requested (known finding `C18:digest:false-in-sync:sip13-collision`, replayed on the real
+    code on every run).  The theorems of this property hold for the states on which the hash does
+    not collide; this is the (astronomically sparse, but non-empty) rest. -/
+theorem digest_false_in_sync_sip13_counterexample (depth k : Nat) :
+    ([(k, collV1)] : NMap RV) ≠ [(k, collV2)]
+    ∧ digest currentHasher depth [k] [(k, collV1)] = digest currentHasher depth [k] [(k, collV2)]
+    ∧ differsFrom (digest currentHasher depth [k] [(k, collV1)]) (digest currentHasher depth [k] [(k, collV2)]) = false
+    ∧ divergentBuckets (digest currentHasher depth [k] [(k, collV1)]) (digest currentHasher depth [k] [(k, collV2)]) = [] := by
+  have hc := sip13_value_hash_collision
+  have hkd : keyDigest currentHasher currentStream k collV1 = keyDigest currentHasher currentStream k collV2 := by
+    unfold keyDigest
+    rw [hc.1, hc.2.1]
+    rfl
+  have heq : digest currentHasher depth [k] [(k, collV1)] = digest currentHasher depth [k] [(k, collV2)] :=
+    fromState_singleton_congr currentHasher currentStream depth k collV1 collV2 hkd
+  refine ⟨?_, heq, ?_, ?_⟩
+  · intro h
+    injection h with h _
+    injection h with _ h
+    exact hc.2.2.1 h
+  · rw [heq]; simp [differsFrom]
+  · rw [heq]
+    unfold divergentBuckets
+    simp
+    intro a ha
+    have hl : (List.range (digest currentHasher depth [k] [(k, collV2)]).buckets.length).length
+        ≤ (digest currentHasher depth [k] [(k, collV2)]).buckets.length := by simp
+    rw [List.drop_of_length_le hl] at ha
+    cases ha
+
 /-! ## what the managers can observe: equal digests -/
 
 /-- **C18 (in sync, as the managers see it, means merged)**: ideal byte hash, one configured depth.
